@@ -86,6 +86,20 @@ Inverse(n, s) == InvDifficulty(n, s) /\ InvTotalWork(n, s) /\ InvOakWork(n, s) /
 
 \* ---- cumulative work ---------------------------------------------------------
 WorkMono(n, s, s2) == Le(s.W, s2.W) /\ (s2.height >= n.allow => Lt(s.W, s2.W))
+\* "cumulative": once work is kept as an integer (v2 rules), the work of a chain is the sum of the work
+\* required of its blocks -- the block that is applied was required to carry s.D.  (Before v2 the chain
+\* accumulates in the target domain, where only the inverse relation and monotonicity are demanded.)
+WorkSum(n, s, s2) == s2.height >= n.allow => s2.W = Add(s.W, s.D)
+
+\* ---- limb boundaries of a 256-bit value kept in four 64-bit limbs --------------------
+\* (not a clause: vocabulary for the magnitude lattice of DifficultyMag, which promises scenarios in which a
+\*  carry / borrow crosses a given limb boundary of the implementation's representation)
+\* x mod 2^k
+Low(x, k) == LET q == k \div 15  r == k % 15 IN
+             Norm([i \in 1..(q + 1) |-> IF i <= q THEN Limb(x, i) ELSE Limb(x, q + 1) % (2 ^ r)])
+\* schoolbook x + y carries out of bit k;  x - y borrows across bit k
+CarryAt(x, y, k)  == Le(Pow2(k), Add(Low(x, k), Low(y, k)))
+BorrowAt(x, y, k) == Lt(Low(x, k), Low(y, k))
 
 \* ---- header rule ---------------------------------------------------------------
 Range(q) == {q[i] : i \in DOMAIN q}
@@ -117,5 +131,5 @@ ApplyHeader(n, s, hd, s2) ==
   /\ s2.prev = Window(<<hd.ts>> \o s.prev)
   /\ Clamp(n, s, s2) /\ NonZero(n, s2)
   /\ Inverse(n, s2)
-  /\ WorkMono(n, s, s2)
+  /\ WorkMono(n, s, s2) /\ WorkSum(n, s, s2)
 =============================================================================
